@@ -49,7 +49,7 @@ class InvasiveWeedOptimization(OptimizationAbstract):
         # update Standard Deviation
         sigma_start, sigma_end = self._config.sigma
         sigma = (
-                        (self._config.max_cycles - self._current_cycle) / (self._config.max_cycles - 1)
+                        (self._config.max_cycles - self._current_cycle) / max(self._config.max_cycles - 1, 1)
         ) ** self._config.exponent * (sigma_start - sigma_end) + sigma_end
 
         pop_new = list(chain.from_iterable(map(evolve, self._population)))
